@@ -2,6 +2,7 @@
 from ..gen import cells as G
 from ..gen import vmvals as V
 from ..translate import arith2
+from ..translate import vmsrc
 
 SPEC = dict(
     manifest=dict(
@@ -23,15 +24,27 @@ SPEC = dict(
              'snapshot of the caller\'s values) and against the Lean model (cell hash, post-state, parsed stack, parser on damaged input). '
              'The int64 selection test of VmStackValue.serialize (`-2**63 <= value < 2**63`) and the two window tests of VmCellSlice.deserialize '
              'are re-translated from vm_stack.py on every run (Generated/VmStackTests.lean) and proved for EVERY integer to be the model\'s tests '
-             '(c17_src_tests); the hand model chooses tinyint / int257 by exactly the regenerated test (c17_src_model_int).',
+             '(c17_src_tests); the hand model chooses tinyint / int257 by exactly the regenerated test (c17_src_model_int). '
+             'The WHOLE serialize and deserialize methods of VmStack, VmStackList, VmStackValue, VmTuple, VmTupleRef, VmCellSlice, VmCont, '
+             'VmControlData, VmSaveList are regenerated from vm_stack.py on every run (Generated/VmStackSrc.lean, translator pytlb.py) and proved '
+             'for ALL inputs to equal the hand model: c17_src_serialize (same raise decision and cell, every sufficient recursion budget), '
+             'c17_src_deserialize (the regenerated parsers ARE De.* on every slice and every budget, value and slice state), c17_src_pure / '
+             'c17_src_twice (the regenerated serialisers return, next to the cell, the state of the caller\'s argument after the call - a pop() on '
+             'it shows up there - and that state is the argument itself), c17_src_roundtrip (regenerated serialize then regenerated deserialize).',
         level_note='Full proof of all three clauses over the model. The parser model carries a recursion budget (one unit per nested call; Python has '
                    'none): the round trip holds for every budget >= fuelL vs, an explicit bound linear in the size of the stack (the driver runs with 10^8). Trusted: Model/VmStack.lean mirrors vm_stack.py by hand '
                    '(Python lists stored last-first); '
                    'Spec/Tlb/VmStack.lean says what block.tlb says; the save list (HashmapE 4 VmStackValue) is an opaque dictionary root cell '
                    'in model and spec (HashMap codec is C09/C10); cell construction is a parameter (mk/view/ord) with the laws view(mk b r) = (b, r), '
-                   'ord(mk b r); the post-state model describes successful calls only; model = code is sampled differential testing.',
-        technique='Lean 4 proof (hand model) + differential correspondence with the library + source-regenerated range tests'),
-    translators=[('vm_stack.py tinyint / cell-slice window tests->Generated/VmStackTests.lean', arith2.regenerator('VmStackTests'))],
+                   'ord(mk b r); the post-state model describes successful calls only. Since the methods are regenerated and proved equal, model = code no longer '
+                   'rests on sampling for vm_stack.py itself; what stays trusted: the translator pytlb.py + the declared interface in vmsrc.py (Builder / Slice '
+                   'methods mean BOp.* / SOp.* of Model/Builder.lean, value classes <-> constructors of Val / Cont / Ctl, Python lists as Lean lists last '
+                   'element first, PyTlb.lean), validated against CPython on 685 requests whenever anything changes; element states reached only through a '
+                   'continuation\'s control-data stack or a copy are outside the regenerated post-state (hand model postList + deep snapshot).',
+        technique='Lean 4 proof; serialize / deserialize methods regenerated from source and proved equal to the hand model for all inputs; differential correspondence with the library'),
+    translators=[('vm_stack.py tinyint / cell-slice window tests->Generated/VmStackTests.lean', arith2.regenerator('VmStackTests')),
+                 ('vm_stack.py whole serialize / deserialize methods->Generated/VmStackSrc.lean', vmsrc.regenerate)],
+    lean_targets=['TonVerif.Proofs.SrcVmStack', 'TonVerif.Proofs.SrcVmStackDe'],
     design_ref='DESIGN.md §6 C17',
     rule='stacks of depth 0..50 (thorough 0..2000 and the cell-depth limit 1021..1024) of null / ints at +-2^63, +-(2^63+-1), +-2^256 and random '
          'magnitudes / cells / slices with partly consumed bits and refs / builders / tuples nested to depth 6 with lengths 0..5, 255, 256 / all ten '
@@ -42,7 +55,8 @@ SPEC = dict(
                   'Spec/Tlb/VmStack.lean transcribes block.tlb (VmStack .. VmCont, VmControlData); VmSaveList content opaque',
                   'harness/gen/vmvals.py: descriptions, canonical form, independent schema encoder; gen/cells.py spec cell hash',
                   'HashMap (HashmapE 4) serialisation of save lists is taken from the library (C09/C10)',
-                  'harness/translate/pyarith.py + arith.py/arith2.py (Python comparisons -> Lean) for the c17_src_* theorems'],
+                  'harness/translate/pyarith.py + arith.py/arith2.py (Python comparisons -> Lean) for the c17_src_tests theorems',
+                  'harness/translate/pytlb.py + vmsrc.py (declared interface) + lean/TonVerif/PyTlb.lean for the whole-method c17_src_* theorems; Model/Builder.lean as the meaning of Builder / Slice'],
     assumptions=['correspondence is sampled differential testing',
                  'Python recursion limit raised to 40000 in the harness (a runtime limit, not part of the model)'],
 )
@@ -320,6 +334,48 @@ def src_search(ctx, cx):
         if -2 ** 256 <= v < 2 ** 256:
             check_stack(ctx, cx, [['i', v]], 'src-int')
             check_stack(ctx, cx, [['i', 7], ['t', [['i', v], ['n']]], ['i', v]], 'src-int-nested')
+    if len(ctx.failures) > n0:
+        return True
+    return src_search_whole(ctx, cx)
+
+
+def src_search_whole(ctx, cx):
+    """Search mode: Lean evaluates the REGENERATED serialize / deserialize methods (Generated/VmStackSrc.lean) against the hand
+    model on the validation stacks (every value kind, tuple length class, continuation kind, Maybe combination, integer
+    boundary) and on the cells the library writes for them; the stacks on which they differ go through the property's oracle
+    first (schema encoding, caller's values untouched, round trip)."""
+    lib = V._lib()[0]
+    try:
+        cx0, stacks = vmsrc.validation_stacks()
+    except Exception as e:
+        ctx.notes.append(f'source-diff search (VmStackSrc): no inputs: {type(e).__name__}: {e}')
+        return False
+    lines, owner = [], []
+    for st in stacks:
+        c1 = cx0.fresh()
+        try:
+            toks = V.stack_tokens(c1, st)
+        except V.Unencodable:
+            continue
+        lines.append(f'ser {c1.dag_arg()} {toks}')
+        owner.append(st)
+        if st:
+            lines.append(f'serv {c1.dag_arg()} {V.stack_tokens(c1, [st[0]])}')
+            owner.append([st[0]])
+        cell, e = _try(lambda: lib.VmStack.serialize([V.mk_lib(c1, d) for d in st]))
+        if cell is not None:
+            nodes, root = V.flatten(cell)
+            lines.append(f'de {G.dag_line(nodes)[8:]} {root}')
+            owner.append(st)
+    diff = set(vmsrc.diff_lines(ctx, lines))
+    n0 = len(ctx.failures)
+    seen = set()
+    for l, st in zip(lines, owner):
+        if l in diff and repr(st) not in seen:
+            seen.add(repr(st))
+            check_stack(ctx, cx, st, 'src-diff')
+            if len(ctx.failures) > n0 + 3:
+                break
     return len(ctx.failures) > n0
 
 
@@ -348,8 +404,11 @@ def builder_histories(ctx):
             back, e2 = _try(lambda: lib.VmStack.deserialize(cell.begin_parse())) if cell is not None else (None, e)
             pb = None
             if back is not None:
-                x = back[1] if isinstance(vs[0], int) else back[0]
-                pb = x if isinstance(x, Builder) else (x[0] if hasattr(x, '__getitem__') else None)
+                try:
+                    x = back[1] if isinstance(vs[0], int) else back[0]
+                    pb = x if isinstance(x, Builder) else (x[0] if hasattr(x, '__getitem__') else None)
+                except Exception:          # e.g. a tuple that came back empty
+                    pb = None
             now = (b.bits.to01(), [r.hash.hex() for r in b.refs])
             got = (pb.bits.to01(), [r.hash.hex() for r in pb.refs]) if isinstance(pb, Builder) else None
             if got != now:
